@@ -139,6 +139,22 @@ fn has_default(t: &Ty) -> bool {
     matches!(t, Ty::Bool | Ty::Int(_) | Ty::F64 | Ty::F32 | Ty::Str | Ty::Opt(_) | Ty::Vec(_) | Ty::Map(..) | Ty::Set(_) | Ty::Unit)
 }
 
+fn nested_option(t: &Ty) -> bool {
+    match t {
+        Ty::Opt(x) => {
+            // (a Box is transparent on the wire)
+            let mut y: &Ty = x;
+            while let Ty::Boxed(z) = y {
+                y = z;
+            }
+            matches!(y, Ty::Opt(_)) || nested_option(x)
+        }
+        Ty::Vec(x) | Ty::Set(x) | Ty::Boxed(x) | Ty::Array(x, _) | Ty::Map(x, _) => nested_option(x),
+        Ty::Tuple(ts) => ts.iter().any(nested_option),
+        _ => false,
+    }
+}
+
 fn fields(g: &mut G, n: usize, idx: usize, max: usize) -> Vec<Field> {
     let k = 1 + g.below(max);
     let mut names: Vec<&str> = FIELD_NAMES.to_vec();
@@ -153,7 +169,9 @@ fn fields(g: &mut G, n: usize, idx: usize, max: usize) -> Vec<Field> {
             // a custom default function returning a (usually non-empty) value of the field's
             // type; only for types without references (the value must be constructible here)
             let container = matches!(t, Ty::Map(..) | Ty::Vec(_) | Ty::Set(_) | Ty::Str);
-            let default_fn = if !default && has_default(&t) && !mentions_ref(&t) && g.chance(if container { 2 } else { 1 }, 4) {
+            // (not for Option<Option<_>>: None and Some(None) share one wire form, so a custom
+            // default of Some(None) makes "reads back as the same value" undecidable on the wire)
+            let default_fn = if !default && has_default(&t) && !mentions_ref(&t) && !nested_option(&t) && g.chance(if container { 2 } else { 1 }, 4) {
                 let empty = Universe { defs: vec![] };
                 Some((format!("dflt_{}_{}_{}", idx, name, g.below(100000)), expr(g, &empty, &t, 1)))
             } else {
@@ -184,7 +202,11 @@ pub fn universe(g: &mut G) -> Universe {
                 let tagging = match g.below(4) {
                     0 => Tagging::External,
                     1 => Tagging::Internal("type".into()),
-                    2 => Tagging::Adjacent("t".into(), "c".into()),
+                    2 => {
+                        // tag and content keys in either alphabetical order
+                        let (t, c) = *g.pick(&[("t", "c"), ("kind", "value"), ("tag", "content"), ("a_tag", "z_body"), ("type", "data")]);
+                        Tagging::Adjacent(t.into(), c.into())
+                    }
                     _ => Tagging::Untagged,
                 };
                 let nv = 1 + g.below(4);
